@@ -564,12 +564,18 @@ def origin_outside_of_tetrahedron_planes(a, b, c, d):
     # The winding of all triangles has been chosen so that signd should have
     # the same sign for all components. If this is not the case the tetrahedron
     # is degenerate and we return that the origin is in front of all sides.
-    if np.all(signd > 0.0):
+    # |signd| = 6 * volume = base area * height: a tetrahedron that is flat
+    # compared to its longest edge only has rounding noise in signd and signp.
+    cd = d - c
+    max_edge_sq = max(ab.dot(ab), ac.dot(ac), ad.dot(ad),
+                      bd.dot(bd), bc.dot(bc), cd.dot(cd))
+    min_volume = math.sqrt(EPSILON * max_edge_sq) * max_edge_sq
+    if np.all(signd > min_volume):
         return signp >= -EPSILON
-    elif np.all(signd < 0.0):
+    elif np.all(signd < -min_volume):
         return signp <= EPSILON
     else:
-        # Mixed signs, degenerate tetrahedron
+        # Mixed signs or no volume, degenerate tetrahedron
         return ALL_TRUE
 
 
